@@ -12,7 +12,6 @@
 //!
 //! Note that all writing sorts the tiny files.
 
-use std::fmt::Display;
 use std::fs::File;
 use anyhow::{anyhow, bail, Context, Result};
 use std::io::{BufRead, BufReader, BufWriter, Read, Write};
@@ -199,6 +198,15 @@ pub(crate) fn escape(s: &str) -> String {
 	s.replace('\\', "\\\\").replace('\n', "\\n").replace('\r', "\\r").replace('\t', "\\t")
 }
 
+/// A cell of a line can't hold the characters that end cells and lines.
+fn cell(s: &JavaStr) -> Result<&str> {
+	let s = s.as_str().map_err(|e| anyhow!("{s:?} is not valid UTF-8 and cannot be written to a tiny file: {e}"))?;
+	if s.contains(['\t', '\n', '\r']) {
+		bail!("{s:?} contains a tab, line feed or carriage return and cannot be written to a tiny file");
+	}
+	Ok(s)
+}
+
 fn add_comment(javadoc: &mut Option<JavadocMapping>, line: TinyLine) -> Result<()> {
 	let comment = JavadocMapping(unescape(line.end()?));
 	if let Some(javadoc) = javadoc {
@@ -236,16 +244,16 @@ pub fn write_vec<const N: usize, Ns>(mappings: &Mappings<N, Ns>) -> Result<Vec<u
 
 fn write_namespaces<const N: usize, Ns>(w: &mut impl Write, namespaces: &Namespaces<N, Ns>) -> Result<()> {
 	for namespace in namespaces.names() {
-		write!(w, "\t{namespace}")?;
+		write!(w, "\t{}", cell(JavaStr::from_str(namespace))?)?;
 	}
 	writeln!(w)?;
 	Ok(())
 }
 
-fn write_names<const N: usize>(w: &mut impl Write, names: &Names<N, impl Display>) -> Result<()> {
+fn write_names<const N: usize>(w: &mut impl Write, names: &Names<N, impl AsRef<JavaStr>>) -> Result<()> {
 	for name in names.names() {
 		if let Some(name) = name {
-			write!(w, "\t{name}")?;
+			write!(w, "\t{}", cell(name.as_ref())?)?;
 		} else {
 			write!(w, "\t")?;
 		}
@@ -338,7 +346,7 @@ pub fn write<const N: usize, Ns>(mappings: &Mappings<N, Ns>, w: &mut impl Write)
 		let mut fields: Vec<_> = class.fields.values().collect();
 		fields.sort_by_key(|x| &x.info);
 		for field in fields {
-			write!(w, "\tf\t{}", field.info.desc.as_inner())?;
+			write!(w, "\tf\t{}", cell(field.info.desc.as_inner())?)?;
 			write_names(w, &field.info.names)?;
 
 			if let Some(ref comment) = field.javadoc {
@@ -349,7 +357,7 @@ pub fn write<const N: usize, Ns>(mappings: &Mappings<N, Ns>, w: &mut impl Write)
 		let mut methods: Vec<_> = class.methods.values().collect();
 		methods.sort_by_key(|x| &x.info);
 		for method in methods {
-			write!(w, "\tm\t{}", method.info.desc.as_inner())?;
+			write!(w, "\tm\t{}", cell(method.info.desc.as_inner())?)?;
 			write_names(w, &method.info.names)?;
 
 			if let Some(ref comment) = method.javadoc {
